@@ -27,7 +27,7 @@ STUB = ["time.perf_counter (SimClock, advanced per pricing call)", "custom-mode 
 ASSUMPTIONS = ["the pricing peer honours its contract (returns a column of its universe with its true reduced cost, or None when none improves)",
                "instances small enough for the DP optimum"]
 TIERS = {
-    "quick": {"runs": 12000, "block": 250, "budget_s": 80},
+    "quick": {"runs": 16000, "block": 250, "budget_s": 90},
     "thorough": {"runs": 400000, "block": 500, "budget_s": 900},
 }
 STEP_LIMIT = 40_000_000
@@ -97,8 +97,8 @@ def cover_min(columns, demands):
 
 def generate(rng, tier):
     big = tier == "thorough"
-    case = {"solver": rng.choice(["cg", "cg", "bp"]), "interval": rng.choice([1, 1, 1, 2, 3])}
-    if rng.random() < 0.7:
+    case = {"solver": rng.choice(["cg", "bp"]), "interval": rng.choice([1, 1, 1, 2, 3])}
+    if rng.random() < (0.7 if case["solver"] == "cg" else 0.35):
         W = rng.randrange(5, 31)
         n = rng.randrange(1, 6 if big else 5)
         sizes = [rng.randrange(1, W + 1) for _ in range(n)]
@@ -164,8 +164,16 @@ def generate(rng, tier):
     # a relative gap tolerance below 1/20 cannot legitimise a non-minimal plan on these instances (objective <= 20 rolls,
     # integer objective), so OPTIMAL must still mean minimal
     case["gap_tol"] = rng.choice([None, None, 0.01, 0.04]) if case["solver"] == "bp" else None
-    if case["mode"] == "custom" and case["initial"] and rng.random() < 0.25:
-        case["initial"].insert(rng.randrange(len(case["initial"]) + 1), list(rng.choice(case["initial"])))  # a column listed twice
+    if case["mode"] == "custom" and case["initial"] and rng.random() < 0.45:
+        for _ in range(rng.choice([1, 1, 2])):  # a column listed twice (pools assembled from several sources repeat columns)
+            col = list(rng.choice(case["initial"]))
+            case["initial"].insert(rng.randrange(len(case["initial"]) + 1), col)
+            big = [i for i, a in enumerate(col) if a >= 2]
+            if big and rng.random() < 0.6:
+                # make the repeated column attractive at a fractional level (demand not a multiple of its yield), so that the
+                # master LP and the branching really have to deal with both copies
+                i = rng.choice(big)
+                case["demands"][i] = col[i] * rng.choice([1, 1, 2]) + rng.randrange(1, col[i])
     case["seq_as"] = rng.choice(["list", "list", "tuple"])
     case["faults"] = {
         "cancel": rng.random() < 0.8,
